@@ -2093,6 +2093,20 @@ pub fn run(ctx: &Ctx) -> HResult<()> {
 		settle(ctx, "limits-alloc", fails)?;
 	}
 
+	// ---- header lists of the real networks
+	{
+		let mut cases = vec![];
+		for mainnet in [true, false] {
+			for n in [1u16, 2, 31, 32, 33, 100] {
+				for (dribble, version) in [(false, 1000u32), (true, 2), (false, 1)] {
+					cases.push(NetListCase { mainnet, n, dribble, version });
+				}
+			}
+		}
+		let fails = par_for(&cases, 4, |c| check_netlist(ctx, c, true));
+		settle(ctx, "netlist", fails.into_iter().map(|(i, f)| (serde_json::to_value(&cases[i]).unwrap(), f)).collect())?;
+	}
+
 	// ---- handshake
 	let hs = handshake_table(ctx.quick());
 	let fails = par_for(&hs, 16, |c| check_handshake(ctx, c, true));
@@ -2105,6 +2119,113 @@ pub fn run(ctx: &Ctx) -> HResult<()> {
 		}
 	}
 	Ok(())
+}
+
+/// Header lists as the REAL networks carry them: under the Mainnet / Testnet chain type (their magic, their
+/// minimum primary edge bits of 31) a `Headers` message holding `n` copies of that network's genesis header — a
+/// 29-edge-bit secondary proof of work, the smallest header those networks know, smaller than any primary one —
+/// between a Ping and a Pong, written whole or dribbled. The testing chain types cannot show this shape: there the
+/// secondary size (29) is far ABOVE the primary minimum (10).
+#[derive(Clone, Debug, Serialize, Deserialize)]
+pub struct NetListCase {
+	pub mainnet: bool,
+	pub n: u16,
+	pub dribble: bool,
+	pub version: u32,
+}
+
+pub fn check_netlist(ctx: &Ctx, c: &NetListCase, counting: bool) -> PResult {
+	let (ct, g) = if c.mainnet { (ChainTypes::Mainnet, grin_core::genesis::genesis_main()) } else { (ChainTypes::Testnet, grin_core::genesis::genesis_test()) };
+	global::set_local_chain_type(ct);
+	let r = (|| -> PResult {
+		let hb = enc(&g.header, c.version).map_err(harness("ser"))?;
+		let mut list = c.n.to_be_bytes().to_vec();
+		for _ in 0..c.n {
+			list.extend_from_slice(&hb);
+		}
+		let frame = |t: Type, body: &[u8]| -> Result<Vec<u8>, Fail> {
+			let mut f = enc(&MsgHeader::new(t, body.len() as u64), c.version).map_err(harness("ser"))?;
+			f.extend_from_slice(body);
+			Ok(f)
+		};
+		let ping = enc(&Ping { total_difficulty: Difficulty::from_num(7), height: 9 }, c.version).map_err(harness("ser"))?;
+		let pong = enc(&Pong { total_difficulty: Difficulty::from_num(8), height: 10 }, c.version).map_err(harness("ser"))?;
+		let mut stream = frame(Type::Ping, &ping)?;
+		stream.extend(frame(Type::Headers, &list)?);
+		stream.extend(frame(Type::Pong, &pong)?);
+		let (mut w, rd) = socket_pair()?;
+		let dribble = c.dribble;
+		let (got, err) = std::thread::scope(|sc| {
+			let st = &stream;
+			let wh = sc.spawn(move || {
+				if dribble {
+					for ch in st.chunks(7) {
+						if w.write_all(ch).is_err() {
+							break;
+						}
+					}
+				} else {
+					let _ = w.write_all(st);
+				}
+				let _ = w.shutdown(Shutdown::Write);
+				// keep the socket until the reader is done
+				w
+			});
+			let mut codec = Codec::new(ProtocolVersion(c.version), rd);
+			let mut got: Vec<String> = vec![];
+			let mut headers = 0usize;
+			let mut err = None;
+			for _ in 0..(c.n as usize + 8) {
+				match catch(|| codec.read()) {
+					Err(p) => {
+						err = Some(format!("panic: {}", p.msg));
+						break;
+					}
+					Ok((Ok(Message::Ping(_)), _)) => got.push("Ping".into()),
+					Ok((Ok(Message::Pong(_)), _)) => {
+						got.push("Pong".into());
+						break;
+					}
+					Ok((Ok(Message::Headers(d)), _)) => {
+						if d.headers.iter().any(|h| *h != g.header) {
+							err = Some("a delivered header differs from the one sent".into());
+							break;
+						}
+						headers += d.headers.len();
+					}
+					Ok((Ok(m), _)) => got.push(describe(&Ok(m))),
+					Ok((Err(e), _)) => {
+						err = Some(format!("{:?}", e));
+						break;
+					}
+				}
+			}
+			drop(codec);
+			let _ = wh.join();
+			got.push(format!("headers={}", headers));
+			(got, err)
+		});
+		let want = vec!["Ping".to_string(), "Pong".to_string(), format!("headers={}", c.n)];
+		ensure!(
+			err.is_none() && got == want,
+			"real-network-header-list-not-read",
+			"{} chain, version {}, {} genesis headers (29 edge bits) in one Headers message{}: read {:?} / error {:?}, expected {:?}",
+			if c.mainnet { "Mainnet" } else { "Testnet" },
+			c.version,
+			c.n,
+			if c.dribble { ", dribbled" } else { "" },
+			got,
+			err,
+			want
+		);
+		Ok(())
+	})();
+	global::set_local_chain_type(ChainTypes::AutomatedTesting);
+	if counting && r.is_ok() {
+		ctx.ev.eval();
+		ctx.ev.class(&format!("real_network_header_list:{}:{}", if c.mainnet { "mainnet" } else { "testnet" }, c.n));
+	}
+	r
 }
 
 /// not used (the work is I/O bound: threads, not processes)
@@ -2132,6 +2253,10 @@ pub fn replay(ctx: &Ctx, part: &str, case: &Value) -> PResult {
 		"handshake" => {
 			let c: HsCase = serde_json::from_value(case.clone()).map_err(parse)?;
 			check_handshake(ctx, &c, false)
+		}
+		"netlist" => {
+			let c: NetListCase = serde_json::from_value(case.clone()).map_err(parse)?;
+			check_netlist(ctx, &c, false)
 		}
 		_ => Ok(()),
 	}
